@@ -1,5 +1,7 @@
 """Shared pieces of the property checks."""
-from .. import ast as A, gen, values as V, campaign
+from .. import ast as A, gen, values as V, campaign, tlc
+from ..pipeline import pkey
+import os
 
 # mismatch kinds that are disagreements about values / bytes / consumption / acceptance
 VALUE_KINDS = {"in-pos", "in-arg", "out-status", "out-value", "out-pos",
@@ -35,3 +37,18 @@ def standard_program_calls(camp, rng, prog, con, kw, nvalues=3, ninputs=3, claus
         camp.sizeof(prog, con, kw)
         if kw:
             camp.sizeof(prog, con, {})
+
+
+def design_level(ctx, module, workers=16, required=True):
+    "run an MC_* configuration of the specification (TLC alone, no implementation involved)"
+    cfg = module + ".cfg"
+    if not os.path.exists(os.path.join(tlc.SPEC, module + ".tla")):
+        if required:
+            raise tlc.MachineryError("missing design-level module " + module)
+        return None
+    out, stats = tlc.run_tlc(module + ".tla", cfg, workers=workers, scratch=ctx.scratch, env={"MC_TIER": ctx.tier})
+    if "Error:" in out:
+        raise tlc.MachineryError("%s: design-level check failed:\n%s" % (module, out[-2500:]))
+    ctx.add_tlc(stats)
+    ctx.cov.setdefault("design_level", {})[module] = {"states": stats["distinct"], "wall_s": round(stats["wall_s"], 1)}
+    return stats
